@@ -199,7 +199,7 @@ def _run(ctx, replay):
             if fn.startswith(ID + '-') and fn.endswith('.lines'):
                 txt = open(os.path.join(cdir, fn)).read()
                 ops = split_ops(txt.splitlines()); all_ops += ops
-                check_history(ops, dict(re.findall(r'^#env (\w+)=(\S*)$', txt, flags=re.M)) or C_ENV, 'corpus ' + fn)
+                check_history(ops, dict(re.findall(r'^#env (\w+)=(\S*)$', txt, flags=re.M)) or C_ENV, 'corpus ' + fn, insertion=any(o.startswith('AddBuiltin ') for o in ops))
         for i in range(nh):
             g = xrlops.OpGen(random.Random(ctx.rng.getrandbits(64)), meta)
             ops = g.ops(nops, allow_retain=True)
